@@ -135,6 +135,7 @@ def gen_case(streams: Streams, tier: str) -> dict:
         crashes = sorted(crashes[:cap])
     return {'space': space, 'algo': algo, 'n': n, 'crashes': crashes,
             'propose_first': c.choice([0, 0, 1, 2]),
+            'zero_rewards': c.random() < 0.3,
             'continue': cfg.randint(1, 4),
             'noise': streams.sub('noise') % (2 ** 31)}
 
@@ -188,11 +189,16 @@ def drive(algo, spec, k, w, multi, store=None):
     return dnas, stopped
 
 
+_ZERO_REWARDS = [False]      # set per run from case['zero_rewards']
+
+
 def _deliver(algo, dnas, j, multi, store=None):
     dna = dnas[j]
     auto = dna.metadata.get('reward') if dna.metadata.get('dedup_key') is not None \
         and 'feedback_sequence_number' not in dna.metadata else None
     reward = searchlib.reward_of(dna, j + 1, multi)
+    if _ZERO_REWARDS[0] and not multi and int(reward * 1000) % 3 == 0:
+        reward = 0.0         # a legitimate reward value that is falsy
     if auto is not None and not isinstance(auto, type(None)):
         # reward computed at the controller side (Deduping.auto_reward_fn):
         # pg.sample feeds exactly this value back
@@ -257,6 +263,16 @@ def observe(algo):
     inner = getattr(algo, 'generator', None)
     if isinstance(algo, pg.geno.Deduping) and isinstance(inner, pg.DNAGenerator):
         obs['inner'] = observe(inner)
+        # the de-duplication memory: per key the rewards seen (what auto_reward_fn is
+        # given); for generators that take no feedback only the number of uses counts
+        mem = getattr(algo, '_cache', None)
+        if isinstance(mem, dict):
+            fb = bool(algo.needs_feedback)
+            # (the keys themselves are Python hashes, which differ between
+            # interpreters: the memory is compared as a multiset of entries)
+            obs['dedup'] = sorted(
+                (sorted(repr(list(r) if isinstance(r, tuple) else r) for r in rs)
+                 if fb else [len(rs)]) for rs in mem.values())
     return obs
 
 
@@ -273,6 +289,9 @@ def run_case(case: dict, prop='C15'):
     steps = 0
     kind = case['algo']['kind']
     multi = searchlib.is_multi_objective(case['algo'])
+    _ZERO_REWARDS[0] = bool(case.get('zero_rewards'))
+    if _ZERO_REWARDS[0]:
+        probes['zero_rewards'] = 1
     spec = searchlib.build_root_space(case['space'])
     spec_r = searchlib.build_root_space(case['space'])   # the restarted process's own copy
     log = []
@@ -450,6 +469,10 @@ def _compare(ou, orr, bad, k, w, mode, U, when, prefix=''):
                 f'{prefix}population (numbers, fitness): recovered '
                 f'{orr.get("population")} vs uninterrupted {ou["population"]}',
                 k, w, mode)
+    if 'dedup' in ou and ou['dedup'] != orr.get('dedup'):
+        bad('C15.dedup-memory', f'{prefix}{when}',
+            f'de-duplication memory (rewards seen per key): recovered {orr.get("dedup")} vs '
+            f'uninterrupted {ou["dedup"]}', k, w, mode)
     if 'inner' in ou:
         iu, ir = dict(ou['inner']), dict(orr['inner'])
         # dropped duplicates are not persisted: the inner proposal count can
